@@ -171,6 +171,18 @@ def run(ctx):
             g, objs, key = build(n, edges, order, mode, unknown, skip)
             keep.append((g, objs))
             o, nbrs, out, err = observe(g, objs, key, trivial)
+            # the enumeration is a function of the graph: a later enumeration of the same object (either mode) gives
+            # the components again, and the graph is what it was
+            if err is None:
+                o2, nbrs2, out2, err2 = observe(g, objs, key, not trivial)
+                want2 = oracle(n, edges, not trivial)
+                if err2 is not None or o2 != o or nbrs2 != nbrs or {frozenset(c) for c in out2} != want2 or \
+                        sum(len(c) for c in out2) != sum(len(c) for c in want2):
+                    ctx.violation("after sccs(%r) on nodes=%d edges=%r a second enumeration sccs(%r) of the same graph "
+                                  "gives %r (%s), expected components %r; nodes before %r, after %r" % (
+                                      trivial, n, sorted(edges), not trivial, out2, err2, sorted(map(sorted, want2)), o, o2),
+                                  {"n": n, "edges": sorted(edges), "insert_order": order, "mode": mode, "first": trivial,
+                                   "second_result": out2, "error": err2}, signature="second-enumeration")
             todo.append((n, edges, order, mode, unknown, sorted(skip), trivial, o, nbrs, out, err))
             queries.append({"op": "sccs", "order": o, "nbrs": nbrs, "trivial": trivial})
         if len(keep) > 2000:
